@@ -26,6 +26,20 @@ class _CacheLock:
         self.f.close()
 
 
+def _fresh_mtimes(d):
+    """called with the cache lock held, right before cargo: cargo decides freshness by comparing source modification times with the
+    time of the last build in the shared target directory, and records source paths relative to the package root -- a copy spliced
+    while another check was still building would otherwise look older than that build and be served the other copy's artifact"""
+    time.sleep(0.02)
+    for sub in ('src', 'tests', 'Cargo.toml', 'build.rs'):
+        q = os.path.join(d, sub)
+        if os.path.isfile(q):
+            os.utime(q, None)
+        for root, _, files in os.walk(q):
+            for fn in files:
+                os.utime(os.path.join(root, fn), None)
+
+
 def _run(cmd, cwd, env, timeout):
     try:
         p = subprocess.run(cmd, cwd=cwd, env=env, capture_output=True, text=True, timeout=timeout)
@@ -51,6 +65,7 @@ def run_kani(harnesses, scratch, repo, log, jobs=8, per_harness_timeout='30m', l
         cmd += ['--harness', h]
     res['cmd'] = ' '.join(cmd)
     with _CacheLock('kani-target'):
+        _fresh_mtimes(d)
         rc, out = _run(cmd, d, env, 6 * 3600)
     res['raw_tail'] = out[-3000:]
     m = re.search(r'Complete - (\d+) successfully verified harnesses, (\d+) failures, (\d+) total', out)
@@ -130,6 +145,7 @@ def run_native(tests, scratch, repo, log, label='native', kind='native', threads
     cmd = ['cargo', 'test', '--offline', '--'] + ['%s::%s' % (modname, t) for t in tests] + ['--test-threads', str(threads)]
     res['cmd'] = ' '.join(cmd)
     with _CacheLock('native-target'):
+        _fresh_mtimes(d)
         rc, out = _run(cmd, d, env, 3600)
     for t in tests:
         m = re.search(r'test \S*' + modname + r'::' + re.escape(t) + r' \.\.\. (\w+)', out)
